@@ -137,6 +137,10 @@ def seg_unit(v, seg, res, tier):
             bad = tables.invalid_literal(dt, v) if tables.is_base(v, dt) else None
             if bad:
                 run(segtext({idx: [rep_of(bad)]}), 'leaf-invalid', must_reject='invalid-%s-value' % dt)
+            if j is None and tables.is_base(v, dt):
+                # more than one component / subcomponent in a field whose datatype is a base one
+                for extra, shape in ((lit + '^' + lit, 'base-field-2-components'), (lit + '&' + lit, 'base-field-2-subcomponents')):
+                    run(segtext({idx: [extra]}), shape)
             if tables.is_base(v, dt) and dt in MAXLEN and not (v == '2.6' and dt == 'ST'):
                 long_ = ('1' if dt in ('NM', 'SI') else 'y') * (MAXLEN[dt] + 1)
                 run(segtext({idx: [rep_of(long_)]}), 'leaf-overlong', must_reject='overlong-%s-value' % dt)
@@ -167,7 +171,10 @@ class TwinSpec(hist.Spec):
         self._t = c09.ListSpec(sid + '-T', kind, TOLERANT, root_name, init, names, values, maxes, None, init)
 
     def build(self):
-        return {'S': self._s._make(self.init), 'T': self._t._make(self.init), 'out': [None]}
+        return {'S': self._s._make(self.init), 'T': self._t._make(self.init), 'out': [None], 'kept': {}}
+
+    KEPT = {'segment': ('pid_7', 'ts_1', 'PID_7', '2021'), 'field': ('cx_10', 'cwe_1', 'CX_10', 'k'), 'message': ('pd1', 'pd1_3', 'PD1', 'k'),
+            'group': ('in2', 'in2_1', 'IN2', 'k')}
 
     def alphabet(self, pool, hist_):
         ops = []
@@ -175,17 +182,39 @@ class TwinSpec(hist.Spec):
             v1, v2 = self.values[n]
             ops += [('set', n, v1), ('set', n, v2), ('setidx', n, 1, v2), ('add_el', n, v1), ('add_helper', n, v2), ('del', n), ('delidx', n, 1)]
         ops += [('x_overflow', self.names[0]), ('x_foreign',), ('x_unknown',), ('x_dtoverride',), ('x_invalid',), ('x_overlong',)]
+        ops += [('keep_proxy',), ('write_kept',), ('x_kept_overflow',)]
         return ops
 
     def apply(self, pool, op):
         outs = {}
         for who, spec in (('S', self._s), ('T', self._t)):
             try:
-                self.apply_one(pool[who], spec, op)
+                if op[0] in ('keep_proxy', 'write_kept', 'x_kept_overflow'):
+                    self.kept_op(pool, who, spec, op)
+                else:
+                    self.apply_one(pool[who], spec, op)
                 outs[who] = ('ok',)
             except Exception as e:
                 outs[who] = ('raise', exc_class(e), is_lib_exc(e) or isinstance(e, ValueError))
         pool['out'][0] = outs
+
+    def kept_op(self, pool, who, spec, op):
+        """a traversal proxy obtained earlier is used after other operations (its element may have been created in between)"""
+        r = pool[who]
+        outer, inner, cname, val = self.KEPT[self.kind]
+        if op[0] == 'keep_proxy':
+            pool['kept'][who] = getattr(getattr(r, outer), inner)
+        elif op[0] == 'write_kept':
+            p = pool['kept'].get(who)
+            if p is None:
+                raise LookupError('no proxy kept')
+            p.value = val
+        else:
+            # keep a proxy into a max-1 child that does not exist, create the child normally, then write through the proxy
+            p = getattr(getattr(r, outer), inner)
+            adder = {'segment': 'add_field', 'field': 'add_component', 'message': 'add_segment', 'group': 'add_segment'}[self.kind]
+            getattr(r, adder)(cname)
+            p.value = val
 
     def apply_one(self, r, spec, op):
         from hl7apy.core import Segment, Field, Component, SubComponent, Group
@@ -262,7 +291,9 @@ class TwinSpec(hist.Spec):
         if b['S'] != b['T']:
             res.dims['transitions from diverged twins (not judged)'] += 1
             return
-        must = {'x_overflow': 'cardinality-overflow', 'x_foreign': 'foreign-child', 'x_unknown': 'unknown-child', 'x_dtoverride': 'datatype-override',
+        if op[0] == 'write_kept' and s[0] == 'raise' and s[1] == 'LookupError':
+            return
+        must = {'x_overflow': 'cardinality-overflow', 'x_kept_overflow': 'cardinality-overflow-through-kept-proxy', 'x_foreign': 'foreign-child', 'x_unknown': 'unknown-child', 'x_dtoverride': 'datatype-override',
                 'x_invalid': 'invalid-value', 'x_overlong': 'overlong-value'}.get(op[0])
         if must:
             res.nontrivial += 1
@@ -277,7 +308,7 @@ class TwinSpec(hist.Spec):
                 ls = sorted(refmodel.seg_lines(a['S'][0][1])) if a['S'][0][0] == 'ok' else None
                 lt = sorted(refmodel.seg_lines(a['T'][0][1])) if a['T'][0][0] == 'ok' else None
                 kind = 'er7-segment-order-only' if ls is not None and ls == lt and self.kind in ('message', 'group') else 'er7-differs'
-                res.violation('%s|%s' % (kind, base), '%s: after %r + %r STRICT encodes %r, TOLERANT %r' % (self.sid, list(ctx.hist), op, a['S'][0], a['T'][0]), point, ctx.depth)
+                res.violation('%s|%s' % (kind, base if kind == 'er7-differs' else 'hist|' + self.kind), '%s: after %r + %r STRICT encodes %r, TOLERANT %r' % (self.sid, list(ctx.hist), op, a['S'][0], a['T'][0]), point, ctx.depth)
                 return
             if a['S'][1] != a['T'][1]:
                 res.violation('report-differs|%s' % base, '%s: after %r + %r validation reports differ: %r vs %r'
